@@ -20,8 +20,8 @@ def run(tier, seed, replay_path=None):
     PC.run_c15_bmc(ck, tier)
     # two clients: accounting after a store racing a delete / a get of the same (initially absent) key
     from . import C16
-    for name in ('evicting set||delete', 'set||get (policy)'):
-        C16.run_item(ck, ('policy', name), tier)
+    names = ['evicting set||delete', 'set||get (policy)', 'get||get (policy, expired item)', 'get||delete (policy, expired item)']
+    ck.fork_map(names, lambda c, name: C16.run_item(c, ('policy', name), tier))
     return ck.finish()
 
 
